@@ -30,7 +30,7 @@ fn free_port() -> u16 {
     l.local_addr().unwrap().port()
 }
 
-fn run_mode(mode: &str, conns: &[(bool, Vec<String>)], keep: &[bool], kinds: &[char], threads: usize, max_head: usize) -> String {
+fn run_mode(mode: &str, conns: &[(bool, Vec<String>)], keep: &[bool], kinds: &[char], threads: usize, max_head: usize, linger_ms: u64) -> String {
     let port = free_port();
     let log: Arc<Mutex<HookLog>> = Arc::new(Mutex::new(HookLog::default()));
     let stop = Arc::new(AtomicBool::new(false));
@@ -81,12 +81,17 @@ fn run_mode(mode: &str, conns: &[(bool, Vec<String>)], keep: &[bool], kinds: &[c
         let log = log.clone();
         b.connection_teardown_hook(move |stream, result| {
             let port = stream.peer_addr().map(|a| a.port()).unwrap_or(0);
-            let mut l = log.lock().unwrap();
-            if let Some(i) = l.by_port.iter().find(|(p, _)| *p == port).map(|(_, i)| *i) {
-                l.conns[i].push(format!("T({})", if result.is_ok() { "ok" } else { "err" }));
-            } else {
-                l.conns.push(vec![format!("T?({})", if result.is_ok() { "ok" } else { "err" })]);
+            {
+                let mut l = log.lock().unwrap();
+                if let Some(i) = l.by_port.iter().find(|(p, _)| *p == port).map(|(_, i)| *i) {
+                    l.conns[i].push(format!("T({})", if result.is_ok() { "ok" } else { "err" }));
+                } else {
+                    l.conns.push(vec![format!("T?({})", if result.is_ok() { "ok" } else { "err" })]);
+                }
             }
+            // a hook that closes the socket and then keeps working for a while: whatever the server still does for
+            // this connection afterwards must not touch a later connection that got the same descriptor number
+            if linger_ms > 0 { drop(stream); std::thread::sleep(Duration::from_millis(linger_ms)); }
         });
     }
     let server = b.build();
@@ -129,9 +134,10 @@ fn run_mode(mode: &str, conns: &[(bool, Vec<String>)], keep: &[bool], kinds: &[c
             transcripts.push(String::new());
             continue;
         }
-        for st in steps {
+        for (si, st) in steps.iter().enumerate() {
             match &st[..1] {
-                "D" => { let _ = s.write_all(&unhex(&st[1..])); std::thread::sleep(Duration::from_micros(700)); }
+                // (no pause before an immediately following FIN: both are to be pending together)
+                "D" => { let _ = s.write_all(&unhex(&st[1..])); if steps.get(si + 1).map(|x| x.as_str()) != Some("X") { std::thread::sleep(Duration::from_micros(700)); } }
                 "X" => { let _ = s.shutdown(std::net::Shutdown::Write); }
                 _ => { let r = read_one(&mut s, &mut rbuf); outs.push(r); }
             }
@@ -189,13 +195,13 @@ fn run_mode(mode: &str, conns: &[(bool, Vec<String>)], keep: &[bool], kinds: &[c
 pub fn run(case: &str) -> String {
     crate::util::note_current(case);
     // P = proceed, X = setup hook drops it, K = proceed and the client keeps it open across StopAccepting
-    // optional prefixes `T<n>!` (thread_count) and `N<n>!` (max_request_head_size)
-    let (mut threads, mut max_head, mut case) = (4usize, 0usize, case);
+    // optional prefixes `T<n>!` (thread_count), `N<n>!` (max_request_head_size), `L<ms>!` (the teardown hook closes the stream and lingers)
+    let (mut threads, mut max_head, mut linger_ms, mut case) = (4usize, 0usize, 0u64, case);
     loop {
         let b = case.as_bytes();
-        if b.len() > 2 && (b[0] == b'T' || b[0] == b'N') && b[1].is_ascii_digit() {
+        if b.len() > 2 && (b[0] == b'T' || b[0] == b'N' || b[0] == b'L') && b[1].is_ascii_digit() {
             if let Some((n, rest)) = case[1..].split_once('!') {
-                if let Ok(v) = n.parse::<usize>() { if b[0] == b'T' { threads = v } else { max_head = v } case = rest; continue; }
+                if let Ok(v) = n.parse::<usize>() { match b[0] { b'T' => threads = v, b'N' => max_head = v, _ => linger_ms = v as u64 } case = rest; continue; }
             }
         }
         break;
@@ -206,7 +212,7 @@ pub fn run(case: &str) -> String {
         let (d, steps) = c.split_once(':').unwrap();
         (d != "X", steps.split(';').filter(|x| !x.is_empty()).map(|x| x.to_string()).collect())
     }).collect();
-    ["pool", "threaded", "epoll"].iter().map(|m| run_mode(m, &conns, &keep, &kinds, threads, max_head)).collect::<Vec<_>>().join(" ## ")
+    ["pool", "threaded", "epoll"].iter().map(|m| run_mode(m, &conns, &keep, &kinds, threads, max_head, linger_ms)).collect::<Vec<_>>().join(" ## ")
 }
 
 pub fn gen(ctx: &Ctx) {
@@ -215,7 +221,7 @@ pub fn gen(ctx: &Ctx) {
     let mut out = Out::new(&ctx.dir, "modes");
     out.rule = "histories of 1..4 sequential connections, each with a setup decision (proceed / drop) and 0..3 lock-step requests (no body / fixed / chunked; handlers: read all, none, close, Err, slow (answer first, linger 25 ms: the next request or the close arrives while the request is in flight), \
                 hook answers; malformed head; client close without request), run against serve, serve_threaded and serve_epoll on real listeners with logging setup / pre-routing / teardown hooks; \
-                one history in six keeps thread_count (4) connections open side by side; the server is then stopped through the setup hook; one proceeding connection in five is handed back by the setup hook as a clone of the accepted stream; one history in seven runs a 1-2 thread pool whose workers are all held by open connections while one more connection waits in the queue when the server is stopped; after a close signal the client tries a further request half of the time; 1..3 Expect: 100-continue exchanges on one connection (compared across modes only). non-trivial = at least one request answered".into();
+                one history in six keeps thread_count (4) connections open side by side; the server is then stopped through the setup hook; one request in eight is followed at once by the client's FIN (the response is read afterwards); the pre-routing hook answers alone, with a close token, or to a request asking for close; in one history in four the teardown hook closes the stream and lingers 25 ms; one proceeding connection in five is handed back by the setup hook as a clone of the accepted stream; one history in seven runs a 1-2 thread pool whose workers are all held by open connections while one more connection waits in the queue when the server is stopped; after a close signal the client tries a further request half of the time; 1..3 Expect: 100-continue exchanges on one connection (compared across modes only). non-trivial = at least one request answered".into();
     let n = if ctx.thorough { 1000 } else { 60 };
     for _ in 0..n {
         let nc = rng.range(1, 4);
@@ -242,11 +248,19 @@ pub fn gen(ctx: &Ctx) {
                 // 9: a slow handler (answers, then lingers 25 ms): what the client does next reaches the server while the request is in flight
                 let path = match kind { 1 => "/close", 2 => "/err", 3 => "/none", 4 => "/first", 5 => "/nosuch", 6 => "/reader/3000", 9 => "/slow/25",
                     12 => *rng.pick(&["/errk/wb", "/errk/to", "/errk/intr", "/errk/pipe", "/errk/other"]), 13 => *rng.pick(&["/closer", "/closeka"]), _ => "/all" };
-                if kind == 7 { fields.push(("x-hook".into(), b"answer".to_vec())); }
+                if kind == 7 {
+                    // the pre-routing hook answers: alone, with a close token in its response, or to a request that asks for close
+                    match rng.below(3) { 0 => fields.push(("x-hook".into(), b"answer".to_vec())), 1 => fields.push(("x-hook".into(), b"answer-close".to_vec())),
+                        _ => { fields.push(("x-hook".into(), b"answer".to_vec())); fields.push(("Connection".into(), b"close".to_vec())); } }
+                }
                 if kind == 8 { fields.push(("Connection".into(), b"close".to_vec())); }
                 let r = Req { method: if wire.is_empty() { "GET" } else { "POST" }, path: path.into(), fields, body: wire };
                 let g = rng.chance(1, 2);
-                steps.extend(exchange(&mut rng, &r, g));
+                let mut ex = exchange(&mut rng, &r, g);
+                // one request in eight is followed at once by the client's FIN: the request and the end of the stream are
+                // both pending when the server looks at the connection; the response is read afterwards
+                if rng.chance(1, 8) && !side_by_side { let rpos = ex.len() - 1; ex.insert(rpos, "X".into()); ended = true; }
+                steps.extend(ex);
                 // after a close signal the connection is closed by the server: half of the time the client tries another request anyway
                 if path.starts_with("/close") || path.starts_with("/err") || kind == 8 { ended = rng.chance(1, 2); }
             }
@@ -277,6 +291,8 @@ pub fn gen(ctx: &Ctx) {
             case.push_str(&format!("/K:{}", exchange(&mut rng, &r, false).join(";")));
             class = "kept-open-across-stop".into();
         }
+        // in one history in four the teardown hook closes the stream itself and lingers 25 ms
+        if rng.chance(1, 4) && !case.starts_with('T') { case = format!("L25!{case}"); }
         let r = run(&case);
         out.emit(&case, &r, &class, r.contains(",k|") || r.contains(",k;") || r.contains(",c|"));
     }
